@@ -55,13 +55,17 @@ def subsume_operands(ctx, R):
                   "the containing side is %s, not the residual regex of the current lexer state: mid-lexeme the "
                   "shortcut is judged against the wrong language and the slice mask is OR-ed in unsoundly" % big, site=cs.where(bi))
     # result: `true` only under a positive answer
+    # (a `res = true` flag or a direct `return Ok(true)`)
     trues = []
-    res_locals = set()
     for bi, si, st in cs.statements():
-        if st["s"] == "assign" and st["r"].get("rv") == "use" and st["r"]["o"].get("ty") == "bool" and st["r"]["o"].get("iv") == "1" \
-                and len(st["p"]) == 1 and cs.local_ty(st["p"][0]) == "bool":
+        if st["s"] != "assign":
+            continue
+        r = st["r"]
+        if r.get("rv") == "use" and r["o"].get("ty") == "bool" and r["o"].get("iv") == "1" and len(st["p"]) == 1 and cs.local_ty(st["p"][0]) == "bool":
             trues.append(bi)
-            res_locals.add(st["p"][0])
+        elif r.get("rv") == "agg" and isinstance(r.get("kind"), dict) and r["kind"].get("variant") == "Ok" and r["ops"] \
+                and r["ops"][0].get("ty") == "bool" and r["ops"][0].get("iv") == "1":
+            trues.append(bi)
     def positive(e):
         e = L.strip_wrappers(e)
         if e[0] == "call" and e[1].endswith("::unwrap_or") and e[2] and e[2][0][0] == "call" and e[2][0][1].endswith("::is_contained_in_prefixes"):
@@ -144,10 +148,13 @@ def run(ctx):
         ctx.check(ok, "C10-R1", "matches:checks-own-regex", "check_subsume is asked about this slice's own regex (self.idx)",
                   "matches() passes %s as the slice index" % F.fmt_expr(e), site=ma.where(cs[0]))
     sp = ctx.body(RV + "::subsume_possible")
+    # blocks that may give the result a value other than the literal `false`
     rets_true = []
+    ret_exprs = {}
     for bi, si, st in sp.statements():
-        if st["s"] == "assign" and st["p"] == [0] and st["r"]["rv"] == "use" and st["r"]["o"].get("iv") == "1":
+        if st["s"] == "assign" and st["p"] == [0] and not (st["r"]["rv"] == "use" and st["r"]["o"].get("iv") == "0"):
             rets_true.append(bi)
+            ret_exprs[bi] = sp.expr_rvalue(st["r"])
     if ctx.floor("C10-R1", "`true` return in subsume_possible", len(rets_true), 1):
         for name, pred in (("state.is_dead()", lambda e: e[0] == "call" and e[1].endswith("StateID::is_dead")),
                            ("has_error()", lambda e: e[0] == "call" and e[1] == RV + "::has_error")):
@@ -155,11 +162,32 @@ def run(ctx):
             still = L.dominated_by_cut(sp, rets_true, edges) if edges else rets_true
             ctx.check(bool(edges) and not still, "C10-R1", "subsume_possible:false-if:" + name,
                       "`true` is returned only when !%s" % name, "subsume_possible can return true although %s" % name, site=sp.where())
-        lz = L.guard_edges(sp, lambda e: e[0] == "call" and e[1].endswith("LexemeSet::contains") and e[2] and L.is_field_read(RV, "lazy")(e[2][0]), True)
+        is_lazy = lambda e: e[0] == "call" and e[1].endswith("LexemeSet::contains") and e[2] and L.is_field_read(RV, "lazy")(L.strip_views(e[2][0]))
+        lz = L.guard_edges(sp, is_lazy, True)
         reach = set()
         for (_, t) in lz:
             reach |= sp.reachable(t)
-        ctx.check(bool(lz) and not (reach & set(rets_true)), "C10-R1", "subsume_possible:false-if-lazy-lexeme",
+        lazy_ok = bool(lz) and not (reach & set(rets_true))
+        if not lz:
+            # iterator form: the result is `!iter.any(|(idx, _)| self.lazy.contains(idx))`
+            def any_lazy(e):
+                cur, pol = F.peel_polarity(e)
+                if pol or cur[0] != "call" or not cur[1].endswith("::any") or len(cur[2]) < 2:
+                    return False
+                for c in L._closures_in(cur[2][1]):
+                    clb = P.bodies.get(c)
+                    if clb is None:
+                        continue
+                    def lazy_upvar(x, _clb=clb):
+                        if not (x[0] == "call" and x[1].endswith("LexemeSet::contains") and x[2]):
+                            return False
+                        src = L.upvar_source(P, _clb, L.strip_views(x[2][0]))
+                        return src is not None and L.is_field_read(RV, "lazy")(L.strip_views(src))
+                    if L._returns_guard_value(clb, [(lazy_upvar, True)]):
+                        return True
+                return False
+            lazy_ok = bool(rets_true) and all(any_lazy(ret_exprs[b]) for b in rets_true)
+        ctx.check(lazy_ok, "C10-R1", "subsume_possible:false-if-lazy-lexeme",
                   "a live lazy lexeme makes subsume_possible return false",
                   "subsume_possible returns true although a lazy lexeme is live in the state", site=sp.where())
 
